@@ -7,8 +7,9 @@ from typing_extensions import TypeAlias
 
 from .convert import (
     from_data, into_data, IntoConverterHandlers,
-    Convertible, IntoConverter
+    Convertible, IntoConverter, ConverterHandlers
 )
+from .converters import SequenceConverter
 
 
 T = t.TypeVar('T', bound='Convertible')
@@ -69,7 +70,8 @@ def from_yaml_all(f: FileOrPath, ty: t.Type[T], *,
     with open_file(f) as f:
         obj = t.cast(t.List[t.Any], list(yaml.load_all(f, Loader)))  # type: ignore
 
-    return from_data(obj, t.List[ty], custom=custom)
+    # build the list converter directly: `t.List[ty]` rejects tuple type literals like `(int, str)`
+    return SequenceConverter(list, ty, handlers=ConverterHandlers.make(custom)).convert(obj)
 
 
 def write_json(obj: Convertible, f: FileOrPath, *,
